@@ -8,10 +8,9 @@ EXTENDS MeshTopo, Json, IOUtils
 
 Cases == ndJsonDeserialize(IOEnv.C10_BATCH)
 
-VARIABLE ci
-Init == ci \in 1..Len(Cases)
-Next == UNCHANGED ci
-Spec == Init /\ [][Next]_ci
+\* ci = index of the case; drv = data derived from the case once (sorted incidences, boundary sets, children tables):
+\* holding it in the state guarantees that TLC computes it once per case
+VARIABLES ci, drv
 
 Fail(cond, pred, lev, part) == IF cond THEN {} ELSE {[p |-> pred, l |-> lev, part |-> part]}
 
@@ -22,6 +21,19 @@ LevelData(C, l) ==
       S  == IF wf THEN IncSeq(M, fam, dim) ELSE << >>
       BF == BoundaryFacets(S)
   IN [wf |-> wf, S |-> S, BF |-> BF, BS |-> IF wf THEN BoundarySets(M, dim, BF) ELSE << >>]
+
+PairData(C, D, l) ==
+  LET Mc == C.levels[l]  Mf == C.levels[l + 1]  par == C.par[l]  dim == C.dim
+      ok == D[l].wf /\ D[l + 1].wf /\ ParShapeOK(Mc, Mf, par, dim)
+  IN [ok |-> ok, CS |-> IF ok THEN [e \in 1..(dim + 1) |-> ChildSeq(Mf, par, e - 1)] ELSE << >>]
+Derived(C) ==
+  LET L == Len(C.levels)
+      D == [l \in 1..L |-> LevelData(C, l)]
+  IN [D |-> D, P |-> [l \in 1..(L - 1) |-> PairData(C, D, l)]]
+
+Init == ci \in 1..Len(Cases) /\ drv = Derived(Cases[ci])
+Next == UNCHANGED <<ci, drv>>
+Spec == Init /\ [][Next]_<<ci, drv>>
 
 \* predicates of one level (l is 1-based, reported 0-based)
 LevelFails(C, D, l) ==
@@ -43,12 +55,12 @@ LevelFails(C, D, l) ==
          UNION {partFails(j) : j \in 1..Len(M.parts)} }
 
 \* the refinement relation between level l and l+1
-PairFails(C, D, l) ==
+PairFails(C, D, PD, l) ==
   LET Mc == C.levels[l]  Mf == C.levels[l + 1]  par == C.par[l]  fam == C.fam  dim == C.dim IN
   IF ~(D[l].wf /\ D[l + 1].wf) THEN {}
-  ELSE IF ~ParShapeOK(Mc, Mf, par, dim) THEN Fail(FALSE, "ParentsExist", l, "")
+  ELSE IF ~PD[l].ok THEN Fail(FALSE, "ParentsExist", l, "")
   ELSE
-    LET CS == [e \in 1..(dim + 1) |-> ChildSeq(Mf, par, e - 1)]
+    LET CS == PD[l].CS
         cnt == Counts(Mc, Mf, fam, dim)
         chl == cnt /\ ChildrenCount(Mc, CS, fam, dim)
         partFails(j) ==
@@ -79,9 +91,8 @@ ProjFails(C) ==
          \cup Fail(pr.orient_pre[l] => pr.orient_fine[l + 1], "ProjOrientationPreserved", l, "") : l \in 1..(L - 1)}
 
 Verdict(C) ==
-  LET L == Len(C.levels)
-      D == [l \in 1..L |-> LevelData(C, l)]
-  IN UNION {LevelFails(C, D, l) : l \in 1..L} \cup UNION {PairFails(C, D, l) : l \in 1..(L - 1)} \cup ProjFails(C)
+  LET L == Len(C.levels) IN
+  UNION {LevelFails(C, drv.D, l) : l \in 1..L} \cup UNION {PairFails(C, drv.D, drv.P, l) : l \in 1..(L - 1)} \cup ProjFails(C)
 
 Info(C) ==
   LET fam == C.fam  dim == C.dim  M == C.levels[1] IN
